@@ -241,7 +241,10 @@ type schedParams struct {
 }
 
 // rounds the scheduler keeps running after the context was cancelled before a sync that has not returned is abandoned
-const graceRounds = 1500
+const graceRounds = 3000
+
+// idle scheduler ticks (no request pending) after which a sync is given up as well
+const maxIdleTicks = 30000
 
 type hashState struct {
 	drops, delay int
@@ -255,6 +258,7 @@ func (w *world) runScheduler(rng *vk.Rand, net *simNet, p schedParams, stop <-ch
 	states := map[string]*hashState{}
 	var answeredList []string
 	deadlineHit, abandoned := false, false
+	active, idle, deadlineAt := 0, 0, 0
 	for round := 0; ; round++ {
 		select {
 		case <-stop:
@@ -262,16 +266,24 @@ func (w *world) runScheduler(rng *vk.Rand, net *simNet, p schedParams, stop <-ch
 		case <-net.wake:
 		case <-time.After(3 * time.Millisecond):
 		}
-		atomic.AddInt64(&w.rounds, 1)
-		if round > p.maxRounds && !deadlineHit {
+		reqs := net.take()
+		// virtual clock: rounds with pending requests count towards the deadline; idle ticks (>= 3 ms each)
+		// only towards a much larger bound that catches a syncer that neither requests nor returns
+		if len(reqs) > 0 {
+			active++
+			atomic.AddInt64(&w.rounds, 1)
+		} else {
+			idle++
+		}
+		if (active > p.maxRounds || idle > maxIdleTicks) && !deadlineHit {
 			deadlineHit = true
+			deadlineAt = round
 			deadline()
 		}
-		if round > p.maxRounds+graceRounds && !abandoned {
+		if deadlineHit && round > deadlineAt+graceRounds && !abandoned {
 			abandoned = true
 			abandon()
 		}
-		reqs := net.take()
 		if int64(len(reqs)) > atomic.LoadInt64(&w.maxPending) {
 			atomic.StoreInt64(&w.maxPending, int64(len(reqs)))
 		}
